@@ -108,7 +108,7 @@ def main(tier):
     def key_trace(key, table, nocc, arity):
         tk, tr, err = project.parse_text(key)
         ctxs = []
-        for pre, post in (("1", ""), ("", "1"), ("a", "a"), ("1", "1"), ("`s`", "`s`")):
+        for pre, post in (("1", ""), ("", "1"), ("a", "a"), ("1", "1"), ("`s`", "`s`"), ("»\\»", ""), ("«a\\«", ""), ("»\\»", "1")):
             ctk, _, cerr = project.parse_text(pre + key + post)
             ctxs.append({"pre": cps(pre), "post": cps(post), "toks": ctk or [], "vflag": False, "loose": False,
                          "err": cerr if (cerr or "").startswith("lex") else ""})
@@ -126,6 +126,23 @@ def main(tier):
             ctxs.append({"pre": cps(pre), "post": [], "toks": ctk, "loose": True, "vflag": True, "err": cerr})
         run = EL.elements.get(key, (None, -1))[1] if table == "elements" else -1
         lam = -1
+        modtree, modtext = [], ""
+        if table == "modifiers" or key in parser_mods:
+            # the modifier applied to DISTINCT operands: the tree must hold each of them, in order, as the grammar says
+            modtext = key + "+-*/"
+            _, mt, merr = project.parse_text(modtext)
+            modtree = mt or [{"t": "error:" + (merr or "")}]
+        if key in ("←", "→"):
+            # a variable access as a modifier operand: a get is a constant (arity 0), a set takes one value
+            try:
+                import vyxal.transpile as T
+                from vyxal.lexer import tokenise
+                from vyxal.parse import parse
+                ar = T.lambda_wrap(parse(tokenise(key + "ab"))).arity
+                lam = ar if isinstance(ar, int) and not isinstance(ar, bool) else -2
+                run = 0 if key == "←" else 1
+            except BaseException:  # noqa: BLE001
+                lam = -1
         if table == "elements" and isinstance(run, int) and run >= 0 and key not in ("Q",):
             # the element as a modifier operand: the lambda the transpiler wraps it in (lambda_wrap) has the element's arity
             try:
@@ -140,7 +157,7 @@ def main(tier):
                 lam = -1
         return {"op": "key", "key": cps(key), "table": table, "toks": tk or [], "tree": tr or [],
                 "err": err or "", "nocc": nocc, "arity": -1 if arity is None else arity,
-                "runarity": run if isinstance(run, int) else -1, "lamarity": lam,
+                "runarity": run if isinstance(run, int) else -1, "lamarity": lam, "modtree": modtree, "modtext": cps(modtext),
                 "inparser": key in parser_mods, "ctxs": ctxs}
 
     for e in elems:
@@ -156,6 +173,20 @@ def main(tier):
     for k in dict.fromkeys(list(parser_mods) + syn["openers"] + syn["closers"] + [syn["break"], syn["recurse"], "|"]):
         traces.append(key_trace(k, "structure", 1, None))
         labels.append(("synkey", k))
+
+    # the variable accesses (documented syntax elements: ← arity 0, → arity 1) as modifier operands
+    import vyxal.transpile as T
+    from vyxal.lexer import tokenise as _tok
+    from vyxal.parse import parse as _parse
+    for vk, want in (("←", 0), ("→", 1)):
+        for name in ("ab", "q", "_x", "", "J", "V", "n", "W"):
+            try:
+                ar = T.lambda_wrap(_parse(_tok(vk + name))).arity
+                lam = ar if isinstance(ar, int) and not isinstance(ar, bool) else -2
+            except BaseException:  # noqa: BLE001
+                lam = -3
+            traces.append({"op": "varop", "key": cps(vk + name), "lamarity": lam, "want": want})
+            labels.append(("varop", vk + name))
 
     eff = {e["key"]: e["arity"] for e in elems}  # dict semantics: the last duplicate wins
     for k in list(eff):  # the arity the transpiler actually sees (runtime table)
